@@ -13,11 +13,14 @@ SHARD = 60
 RULE = ("random masks (densities 0.1-0.9, plus single pixels, rings with holes, two components) inside frames up to 9x9 whose kernel "
         "footprint stays inside the frame; kernels kh,kw in {1,3,5,7} independently with signed integer / quarter entries, asymmetric; "
         "images, blurring images and mapping matrices with integer, k/4, k/8192 or +-{1,3}*2^-30 entries of either sign, dense and sparse "
-        "(zeros included), whole cases rescaled by 2^-34 .. 2^40 (values and/or kernel); for small masks the whole operator on every unit "
+        "(zeros included), whole cases rescaled by 2^-34 .. 2^40 (values and/or kernel), kernel entries k+-2^-30, vectors / matrix columns / "
+        "kernels whose non-zero entries cancel exactly; every fresh-object case first sends a decoy (mask rotated by 180 degrees, other kernel, "
+        "same shapes and pixel count) through the library so that remembered state shows up inside one replayable input; for small masks the whole operator on every unit "
         "image / unit blurring image; a separate malformed stream (even and mixed-parity kernels, footprints leaving the frame). "
         "HISTORY stream: one Convolver object used for a sequence of different inputs (image, second image, matrix, no-blurring, "
         "image object edited in place, matrix edited in place, a second Convolver of the same shapes but other mask/kernel in between, "
-        "the first input object again), one Kernel2D used for several whole-frame convolutions, with masks / kernels / images that are "
+        "the first input object again, finally the Kernel2D and Mask2D objects edited in place and a NEW Convolver built from them), one Kernel2D "
+        "used for several whole-frame convolutions, results handed out earlier re-read at the end, with masks / kernels / images that are "
         "DERIVED objects (edited in place after their derived attributes were read, from_pixel_coordinates, copies, arithmetic results, "
         "store_native=True, apply_mask of an unmasked array) and a check after every call that no argument was modified. "
         "SIMULATOR stream: SimulatorImaging with noise off and background_sky_level in {0, 2^-20 .. 100}, subtract_background_sky on/off, "
@@ -114,7 +117,7 @@ KERNEL_HOW = ["plain", "edited", "arith", "native"]
 IMAGE_HOW = ["plain", "arith", "native", "applied", "edited", "neg"]
 
 def gen_inputs(tier, rng):
-    n = 2000 if tier == "thorough" else 170
+    n = 1800 if tier == "thorough" else 170
     styles = ["random", "random", "random", "single", "ring", "full"]
     for i in range(n):
         kh, kw = rng.choice(KS), rng.choice(KS)
@@ -150,7 +153,7 @@ def gen_inputs(tier, rng):
         # Kernel2D.convolved_array(_with_mask)_from has its own odd-kernel check and no footprint condition
         yield {"op": "whole", "m": m, "K": sk(K), "seed": i, "sparse": False}
     # history stream: one Convolver / one Kernel2D through a sequence of inputs, derived and edited objects
-    for i in range(260 if tier == "thorough" else 22):
+    for i in range(200 if tier == "thorough" else 22):
         kh, kw = rng.choice([1, 3, 3, 5]), rng.choice([1, 3, 3, 5])
         H = rng.randint(kh + 1, min(8, kh + 4)); W = rng.randint(kw + 1, min(8, kw + 4))
         m = rand_mask(rng, H, W, kh, kw, rng.choice(styles[:5]))
@@ -161,7 +164,7 @@ def gen_inputs(tier, rng):
                "vs": rng.choice([0, 0, 0, -30, 30]), "ks": 0,
                "how": {"mask": MASK_HOW[i % 4], "kernel": KERNEL_HOW[(i // 2) % 4], "image": IMAGE_HOW[i % 6]}}
     # simulator stream (noise off): non-default configurations, one simulator for several images, apply_mask histories
-    for i in range(300 if tier == "thorough" else 30):
+    for i in range(240 if tier == "thorough" else 30):
         yield gen_sim(rng, i)
     for i in range(40 if tier == "thorough" else 4):
         yield {"op": "simulate", "seed": rng.randrange(10 ** 9)}
